@@ -137,6 +137,9 @@ class C08(Check):
         except R.Ambiguous:
             labels.add("domain:alias-namespace-ambiguous")
             return labels
+        except R.Unspecified:
+            labels.add("domain:schema-level-mismatch-without-affected-item")
+            return labels
         labels.add("expect:" + kind)
         if case["via"] == "schemaless":
             o = outcome(fastavro.schemaless_reader, io.BytesIO(blob), W, Rs)
